@@ -38,6 +38,40 @@ structure Tx where
   tags : List String := []
 deriving Repr, DecidableEq, Inhabited
 
+/-- `Inputs` (core/src/core/transaction.rs): the two forms in which the inputs of a transaction
+travel.  `commitOnly` ("v3"): commitments; `featuresAndCommit` ("v2", what wallets pushing through
+the API and v2 peers send): each input also *claims* the features of the output it spends
+(`true` = coinbase). -/
+inductive Inputs
+  | commitOnly (cs : List Nat)
+  | featuresAndCommit (is : List (Bool × Nat))
+deriving Repr, DecidableEq, Inhabited
+
+/-- `From<Inputs> for Vec<CommitWrapper>` — the only way pool.rs / transaction_pool.rs /
+`transaction::aggregate` / `deaggregate` / `cut_through` read the inputs of a transaction (the
+re-sorting by commitment is immaterial here: ids are abstract) -/
+def Inputs.commits : Inputs → List Nat
+  | .commitOnly cs => cs
+  | .featuresAndCommit is => is.map (·.2)
+
+/-- A transaction as submitted to `TransactionPool::add_to_pool`: inputs in one of the two forms.
+`sorted = false`: the input vector is not in the order `verify_sorted_and_unique` demands *for
+its variant* (`Input`s are ordered by the hash of (features, commitment), `CommitWrapper`s by
+the hash of the commitment: converting one form into the other without re-sorting gives this). -/
+structure SubTx where
+  inputs : Inputs
+  sorted : Bool := true
+  outs : List Nat
+  kers : List PKer
+  tags : List String := []
+deriving Repr, DecidableEq, Inhabited
+
+/-- the pool's view of a submitted transaction: inputs read through `Inputs.commits`; the
+sortedness of the input vector is a standalone-validity fault like the crypto tags -/
+def SubTx.tx (r : SubTx) : Tx :=
+  { ins := r.inputs.commits, outs := r.outs, kers := r.kers,
+    tags := if r.sorted then r.tags else "unsorted" :: r.tags }
+
 /-- `PoolEntry` (without the timestamp) -/
 structure Entry where
   tx : Tx
@@ -116,6 +150,10 @@ def cutThrough (ins outs : List Nat) : Except Err (List Nat × List Nat) :=
 def allIns (txs : List Tx) : List Nat := txs.flatMap (·.ins)
 def allOuts (txs : List Tx) : List Nat := txs.flatMap (·.outs)
 
+/-- tags that survive re-assembly with `Transaction::new` (which sorts inputs, outputs and
+kernels): everything except a wrongly ordered input vector -/
+def keptTags (tags : List String) : List String := tags.filter (· != "unsorted")
+
 /-- `transaction::aggregate` (empty and single-transaction shortcuts as in the code) -/
 def aggregate : List Tx → Except Err Tx
   | [] => .ok emptyTx
@@ -123,7 +161,8 @@ def aggregate : List Tx → Except Err Tx
   | txs =>
     match cutThrough (allIns txs) (allOuts txs) with
     | .error e => .error e
-    | .ok (i, o) => .ok { ins := i, outs := o, kers := txs.flatMap (·.kers), tags := txs.flatMap (·.tags) }
+    | .ok (i, o) =>
+      .ok { ins := i, outs := o, kers := txs.flatMap (·.kers), tags := keptTags (txs.flatMap (·.tags)) }
 
 /-- `transaction::deaggregate`: remove from `mk` everything that belongs to the aggregate of `txs` -/
 def deaggregate (mk : Tx) (txs : List Tx) : Except Err Tx :=
@@ -133,7 +172,7 @@ def deaggregate (mk : Tx) (txs : List Tx) : Except Err Tx :=
     .ok { ins := (mk.ins.filter (fun i => !a.ins.contains i)).eraseDups,
           outs := (mk.outs.filter (fun o => !a.outs.contains o)).eraseDups,
           kers := (mk.kers.filter (fun k => !a.kers.contains k)).eraseDups,
-          tags := mk.tags }
+          tags := keptTags mk.tags }
 
 /-! ## validation -/
 
@@ -158,13 +197,15 @@ def strNodupB : List String → Bool
 def Tx.balanced (outs : List OutDef) (t : Tx) : Bool :=
   decide (sumVals outs t.ins = sumVals outs t.outs + t.fee)
 
-/-- `Transaction::validate(weighting)`: features, weight, NRD duplicates, sorted-and-unique,
-cut-through, range proofs, signatures, kernel sums — in the code's order. -/
+/-- `Transaction::validate(weighting)`: features, weight, NRD duplicates, sorted-and-unique
+(uniqueness from the ids; a wrongly ordered input vector is the tag `unsorted`), cut-through,
+range proofs, signatures, kernel sums — in the code's order. -/
 def Tx.validate (c : Ctx) (w : Weighting) (t : Tx) : Option Err :=
   if t.kers.any (fun k => k.ker == .cb) then some "InvalidTx:InvalidKernelFeatures"
   else if overWeight c.cfg w t then some "InvalidTx:TooHeavy"
   else if c.cfg.nrdEnabled && !strNodupB (nrdExcesses t) then some "InvalidTx:InvalidNRDRelativeHeight"
   else if !(nodupB t.ins && nodupB t.outs && nodupB (t.kers.map (·.kid))) then some "InvalidTx:Serialization"
+  else if t.tags.contains "unsorted" then some "InvalidTx:Serialization"
   else if t.ins.any (fun i => t.outs.contains i) then some "InvalidTx:CutThrough"
   else if t.tags.contains "rproof" then some "InvalidTx:Secp"
   else if t.tags.contains "sig" then some "InvalidTx:IncorrectSignature"
@@ -313,9 +354,12 @@ def Pool.bucketTransactions (c : Ctx) (w : Weighting) (p : Pool) : List Tx :=
 def Pool.prepareMineable (c : Ctx) (p : Pool) (maxW : Nat) : Except Err (List Tx) :=
   validateRawTxs c (.asLimited maxW) none (p.bucketTransactions c (.asLimited maxW)) []
 
+/-- the transaction `Pool::evict_transaction` picks: the last one of the bucket order -/
+def Pool.evictee (c : Ctx) (p : Pool) : Option Tx := (p.bucketTransactions c .noLimit).getLast?
+
 /-- `Pool::evict_transaction` -/
 def Pool.evict (c : Ctx) (p : Pool) : Pool :=
-  match (p.bucketTransactions c .noLimit).getLast? with
+  match p.evictee c with
   | none => p
   | some t => p.filter (fun e => e.tx != t)
 
@@ -342,7 +386,7 @@ structure TxPool where
   stempool : Pool := []
   /-- `reorg_cache` (oldest first) -/
   cache : List Entry := []
-deriving Repr, Inhabited
+deriving Repr, DecidableEq, Inhabited
 
 abbrev Res := Option Err
 
@@ -442,6 +486,21 @@ def TxPool.addToPool (c : Ctx) (s : TxPool) (src : Src) (tx : Tx) (stem stemOk :
   if stem && s.stempool.containsTx tx then s.addCore c src tx false stemOk
   else s.addCore c src tx stem stemOk
 
+/-- `convert_tx_v2`: the form in which an admitted transaction is stored and relayed — "features
+and commit" inputs whose features are those of the outputs *looked up* by `locate_spends` (from
+the head for `spent_utxo`; outputs created in the pool are plain), never those the submitter
+claimed. -/
+def storedInputs (c : Ctx) (t : Tx) : Inputs :=
+  .featuresAndCommit (t.ins.map fun i =>
+    (match c.head.find i with | some (_, _, cb) => cb | none => false, i))
+
+/-- `TransactionPool::add_to_pool` on a transaction in its submitted form.  Everything the pool
+does with the inputs goes through `Vec<CommitWrapper>::from(tx.inputs())` (`contains_tx` and
+`find_matching_transactions` look at kernels only); the variant matters for the order
+`Transaction::validate` demands (`SubTx.sorted`) and nowhere else. -/
+def TxPool.submit (c : Ctx) (s : TxPool) (src : Src) (r : SubTx) (stem stemOk : Bool) : TxPool × Res :=
+  s.addToPool c src r.tx stem stemOk
+
 /-- `TransactionPool::reconcile_block` (the context already describes the new head) -/
 def TxPool.reconcileBlock (c : Ctx) (s : TxPool) (blkIns blkKers : List Nat) : TxPool × Res :=
   let tp := Pool.reconcile c (s.txpool.reconcileBlock blkIns blkKers) none
@@ -487,6 +546,17 @@ def jointlyValidB (outs : List OutDef) (utxo : List Nat) (txs : List Tx) : Bool 
     decide (I.count o ≤ O.count o + unspentCount utxo o) &&
     decide (O.count o + unspentCount utxo o ≤ I.count o + 1)) &&
   txs.all (fun t => t.balanced outs)
+
+/-- inputs of transactions of the list that exist nowhere: neither unspent at the head nor
+created by a transaction of the list (what the harness computes on the real pool by looking up
+every input of every entry with `Chain::get_unspent`) -/
+def orphans (utxo : List Nat) (txs : List Tx) : List (Tx × Nat) :=
+  txs.flatMap fun t => (t.ins.filter fun i => !(utxo.contains i || (allOuts txs).contains i)).map (t, ·)
+
+/-- **every input available**: each input of each transaction is unspent at the head or created
+by a transaction of the list -/
+def Avail (utxo : List Nat) (txs : List Tx) : Prop :=
+  ∀ t ∈ txs, ∀ i ∈ t.ins, i ∈ utxo ∨ i ∈ allOuts txs
 
 /-- the block a miner assembles from `txs` on top of the head (`mine_block.rs::build_block`):
 aggregate with cut-through, add the coinbase output `cbId` and the coinbase kernel -/
